@@ -2510,7 +2510,8 @@ def witness71_reproduces():
     record.add_cds_feature(CDSFeature(FL(0, 90, 1), translation="M" * 29, gene="g" * 58))
     _bio, text1, reloaded = roundtrip_genbank(record)
     _bio2, text2 = write_genbank(reloaded)
-    return reloaded.get_cds_features()[0].gene == "g" * 51 + "_" + "g" * 7 and features_text(text1) != features_text(text2)
+    gene = reloaded.get_cds_features()[0].gene
+    return len(gene) == 59 and gene.replace("_", "") == "g" * 58 and features_text(text1) != features_text(text2)
 
 
 def witness68_reproduces():
